@@ -85,7 +85,16 @@ static std::string interference_key(const Plan &plan, const Solo &solo, const Mi
             if (plan.tasks[t].ops[o].fn == op.fn)
                 for (int k : solo.res[t][o].footprint)
                     if (std::find(all.footprint.begin(), all.footprint.end(), k) == all.footprint.end()) all.footprint.push_back(k);
-    return std::string("interference:") + g_fn[op.fn].name + ":" + objects_of(all);
+    std::string objs = objects_of(all);
+    if (objs == "?") {
+        // no static object is involved; if the call works on a buffer that touches the arena boundary, the channel is
+        // the neighbouring task's adjacent bytes
+        for (int ai = 0; ai < 3; ai++) {
+            int64_t off = op.a[ai];
+            if (off == ARENA_LO || (off > ARENA_HI - 600 && off < ARENA_HI)) objs = "neighbouring-bytes";
+        }
+    }
+    return std::string("interference:") + g_fn[op.fn].name + ":" + objs;
 }
 
 // ------------------------------------------------------------------ plan surgery for minimisation
@@ -419,7 +428,7 @@ int c12_batch(const Args &a) {
         for (int k = 0; k < nf; k++) g.fams.push_back(cr.below(FAM_NFAM));
         g.faults = cr.chance(1, 2) && !getenv("VERIF_NOFAULTS");
         g.violations = cr.chance(3, 4);
-        if (cr.chance(1, 10)) {
+        if (cr.chance(1, 10) || getenv("VERIF_ADJACENT_ONLY")) {
             // adjacent-data plan: few short calls of the writing families on buffers that share a word across tasks
             g.adjacent = true;
             g.ntasks = 2;
